@@ -117,12 +117,17 @@ func genEngineCfg(r *rand.Rand, p genParams) EngineCfg {
 	styles := []string{"r", "a"}
 	for i := 0; i < nLeaves; i++ {
 		n := NodeCfg{Kind: "leaf", Sty: []string{"-", "-", "-"}, N: 1}
-		switch r.Intn(4) {
-		case 0: // function node
+		switch r.Intn(9) {
+		case 8: // a batch node as a flow step
+			if p.MaxFlows > 0 {
+				n.Kind, n.Retry = "bleaf", true
+				n.N = 1 + r.Intn(p.MaxN)
+			}
+		case 0, 4: // function node
 			n.Func, n.Retry, n.Fb = true, true, r.Intn(2) == 0
 			n.Sty = []string{styles[r.Intn(2)], styles[r.Intn(2)], styles[r.Intn(2)]}
 			n.N = 1 + r.Intn(p.MaxN)
-		case 1:
+		case 1, 5:
 			n.Retry, n.Fb = false, r.Intn(2) == 0
 		default:
 			n.Retry, n.Fb = true, r.Intn(2) == 0
